@@ -147,7 +147,10 @@ TABLE = {
         ("pair-swapped", AG, "            f = (nth_apply, nth_apply_numba)", "            f = (nth_apply_numba, nth_apply)", V, "SIB-8"),
         ("scanner-differs", AG, "        if j < n and group[j] == group[i]: continue\n        xij = x[i:j]\n        if drop_na:\n            xij = xij[~is_na_numba(xij)]",
          "        if j < n and group[j] == group[i]: continue\n        xij = x[i:j+0]\n        if drop_na:\n            xij = xij[~is_na_numba(xij)]", V, "SIB-8"),
-        ("no-datetime-na", AG, "    if isinstance(x, types.NPDatetime):\n        return lambda x: np.isnat(x)", "    pass", V, "SIB-9"),
+        ("no-datetime-na", AG, "    if isinstance(x, (types.NPDatetime, types.NPTimedelta)):\n        return lambda x: np.isnat(x)", "    pass", V, "SIB-9"),
+        ("numba-admits-every-integer-width", AG, "        x.dtype == np.int64)", "        np.issubdtype(x.dtype, np.integer))", V, "SIB-8"),
+        ("numba-admits-every-float-width", AG, "        x.dtype == np.float64 or", "        np.issubdtype(x.dtype, np.floating) or", V, "SIB-8"),
+        ("numba-eligibility-as-dtype-set-silent", AG, "        x.dtype == np.float64 or\n        x.dtype == np.int64)", "        x.dtype in (np.float64, np.int64))", S, None),
         ("quantile-numba-threshold", AG, "        out.append(np.quantile(xg, q) if len(xg) >= 1 else np.nan)", "        out.append(np.quantile(xg, q) if len(xg) >= 2 else np.nan)", V, "SIB-8"),
         ("kernel-sorts-in-place", AG, "    for xg in yield_groups_numba(x, group, drop_na):\n        out.append(len(np.unique(xg)))", "    for xg in yield_groups_numba(x, group, drop_na):\n        xg.sort()\n        out.append(len(np.unique(xg)))", V, "PURE-kernel"),
         ("no-cache-flag", AG, "@njit(cache=dataiter.USE_NUMBA_CACHE)\ndef mode_apply_numba", "@njit(cache=True)\ndef mode_apply_numba", V, "SIB-8"),
